@@ -11,5 +11,5 @@ CONSTANTS
   Deviations = {"silent_cancel_drop"}
 VIEW view
 INVARIANTS NoViolation CounterExact CounterBounded DrainsToMin RejectAfterStop NoCollateral
-PROPERTIES Monotone CancelledNeverRuns
+PROPERTIES Monotone CancelledNeverRuns NoCollateralDrop
 CHECK_DEADLOCK FALSE
